@@ -371,6 +371,24 @@ def call(ex, n, st, q, rd, objn, argn, method, want_lv):
             return VoidV()
         if name == 'reserve':
             return VoidV()
+        if name == 'operator=':
+            # copy (or move) assignment from another vector: length and every leaf array
+            other = ex.ev_obj(argn[0], st)
+            if not isinstance(other, ObjRef):
+                raise ExtractionError(f'{ex.unit}: vector assignment from {other}')
+            for lf, lct in container_leaves(o.cls):
+                st.array(other.name, lf, lct)
+            for key in list(st.arr):
+                if key[0] == region:
+                    del st.arr[key]
+            for key in list(st.arr):
+                if key[0] == other.name:
+                    st.arr[(region, key[1])] = st.arr[key]
+                    st.leafct[(region, key[1])] = st.leafct.get(key, FLOAT)
+            st.length[region] = st.len_of(other.name)
+            ex.logw(('r', region)); ex.logw(('len', region))
+            ex.frame_range(st, region, I(0), st.len_of(region))
+            return ObjRef(region, o.cls)
         raise ExtractionError(f'{ex.unit}: std::vector::{name} not modelled')
     if kind == 'stdarray':
         o = ex.ev_obj(objn, st)
